@@ -19,6 +19,7 @@ for tc in ET.parse(xmlp).getroot().iter("testcase"):
         if name in stable:
             bad.append(name)
 os.unlink(xmlp)
+bad = sorted(set(bad))
 if bad and len(bad) <= 12:
     # process/timing tests flake under load: re-run each suspect alone once
     still = []
@@ -26,8 +27,11 @@ if bad and len(bad) <= 12:
         cls, name = b.split("::")
         mod, _, klass = cls.rpartition(".")
         node = mod.replace(".", "/") + ".py::" + klass + "::" + name
-        r2 = subprocess.run(["/venv/bin/python", "-m", "pytest", "-q", "-p", "no:cacheprovider", "--timeout=900", node],
-                            cwd=tree, env=env, capture_output=True, text=True)
+        for attempt in range(3):
+            r2 = subprocess.run(["/venv/bin/python", "-m", "pytest", "-q", "-p", "no:cacheprovider", "--timeout=900", node],
+                                cwd=tree, env=env, capture_output=True, text=True)
+            if r2.returncode == 0:
+                break
         if r2.returncode != 0:
             still.append(b)
         else:
